@@ -14,6 +14,7 @@ import (
 	"encoding/binary"
 	"encoding/json"
 	"fmt"
+	"sort"
 	"strings"
 	"testing"
 
@@ -45,8 +46,29 @@ type frCase struct {
 	Ops      []frOp `json:"ops"`
 }
 
-var frTopics = []string{"orders", "orders", "events"}
-var frPartsOf = []int32{0, 1, 0}
+// partition ids that are decimal prefixes of one another (1 / 10..19, 2 / 20), topic
+// names likewise (order / orders / orders2)
+var frTopics = []string{"orders", "orders", "events", "orders", "orders", "orders", "orders", "orders", "orders", "orders", "orders", "orders", "orders", "orders", "orders2", "order"}
+var frPartsOf = []int32{1, 10, 0, 11, 12, 13, 14, 15, 16, 17, 18, 19, 2, 20, 1, 1}
+
+const frNL = 16
+
+// frS3 records what RestoreFromS3 asks S3 to list
+type frS3 struct {
+	*storage.MemoryS3Client
+	listPrefix string
+	listKeys   []string
+}
+
+func (s *frS3) ListSegments(ctx context.Context, prefix string) ([]storage.S3Object, error) {
+	objs, err := s.MemoryS3Client.ListSegments(ctx, prefix)
+	s.listPrefix, s.listKeys = prefix, nil
+	for _, o := range objs {
+		s.listKeys = append(s.listKeys, o.Key)
+	}
+	sort.Strings(s.listKeys)
+	return objs, err
+}
 
 func frMeta() metadata.ClusterMetadata {
 	b := protocol.MetadataBroker{NodeID: 1, Host: "localhost", Port: 19092}
@@ -55,10 +77,20 @@ func frMeta() metadata.ClusterMetadata {
 		return protocol.MetadataPartition{Partition: p, Leader: 1, Replicas: []int32{1}, ISR: []int32{1}}
 	}
 	return metadata.ClusterMetadata{ControllerID: 1, ClusterID: &clusterID, Brokers: []protocol.MetadataBroker{b},
-		Topics: []protocol.MetadataTopic{
-			{Topic: kmsg.StringPtr("orders"), TopicID: metadata.TopicIDForName("orders"), Partitions: []protocol.MetadataPartition{mkp(0), mkp(1)}},
-			{Topic: kmsg.StringPtr("events"), TopicID: metadata.TopicIDForName("events"), Partitions: []protocol.MetadataPartition{mkp(0)}},
-		}}
+		Topics: func() []protocol.MetadataTopic {
+			var out []protocol.MetadataTopic
+			for _, t := range []struct {
+				name string
+				n    int32
+			}{{"orders", 22}, {"events", 1}, {"orders2", 2}, {"order", 2}} {
+				mt := protocol.MetadataTopic{Topic: kmsg.StringPtr(t.name), TopicID: metadata.TopicIDForName(t.name)}
+				for p := int32(0); p < t.n; p++ {
+					mt.Partitions = append(mt.Partitions, mkp(p))
+				}
+				out = append(out, mt)
+			}
+			return out
+		}()}
 }
 
 func frPayload(op frOp, lg int) []byte {
@@ -112,7 +144,7 @@ func frRun(cs frCase, t *testing.T) *frResult {
 	ctx := context.Background()
 	res := &frResult{tags: map[string]bool{}}
 	store := metadata.NewInMemoryStore(frMeta())
-	s3 := storage.NewMemoryS3Client()
+	s3 := &frS3{MemoryS3Client: storage.NewMemoryS3Client()}
 	var h *handler
 	newH := func() {
 		if h != nil && h.coordinator != nil {
@@ -130,7 +162,7 @@ func frRun(cs frCase, t *testing.T) *frResult {
 			h.coordinator.Stop()
 		}
 	}()
-	const nl = 3
+	const nl = frNL
 	var hist, refBuf [nl][]frBatch
 	var refSegs [nl][][]frBatch
 	var refNext [nl]int64
@@ -198,7 +230,27 @@ func frRun(cs frCase, t *testing.T) *frResult {
 				}
 			}
 			newH()
-			res.steps = append(res.steps, "FRestart "+cqZs(stores))
+			// rebuild every partition log from S3 now and record what each one listed
+			lists := make([]string, nl)
+			for lg := 0; lg < nl; lg++ {
+				s3.listPrefix, s3.listKeys = "", nil
+				_, _ = h.getPartitionLog(ctx, frTopics[lg], frPartsOf[lg])
+				ks := make([]string, len(s3.listKeys))
+				for i, k := range s3.listKeys {
+					ks[i] = cqStr(k)
+				}
+				lists[lg] = fmt.Sprintf("(%s, %d, %s, %s)", cqStr(frTopics[lg]), frPartsOf[lg], cqStr(s3.listPrefix), cqList(ks))
+			}
+			objs, _ := s3.MemoryS3Client.ListSegments(ctx, "")
+			all := make([]string, len(objs))
+			for i, o := range objs {
+				all[i] = o.Key
+			}
+			sort.Strings(all)
+			for i := range all {
+				all[i] = cqStr(all[i])
+			}
+			res.steps = append(res.steps, "FRestart "+cqZs(stores)+" "+cqList(lists)+" "+cqList(all))
 			res.tags["restart"] = true
 		case "fetch":
 			frFetch(cs, op, res, h, s3, t, corr, func(lg int) ([]frBatch, []frBatch, [][]frBatch) { return live(lg), hist[lg], refSegs[lg] })
@@ -207,7 +259,7 @@ func frRun(cs frCase, t *testing.T) *frResult {
 	return res
 }
 
-func frFetch(cs frCase, op frOp, res *frResult, h *handler, s3 *storage.MemoryS3Client, t *testing.T, corr int32,
+func frFetch(cs frCase, op frOp, res *frResult, h *handler, s3 *frS3, t *testing.T, corr int32,
 	view func(int) ([]frBatch, []frBatch, [][]frBatch)) {
 	ctx := context.Background()
 	version := int16(11)
@@ -405,12 +457,12 @@ func frFetch(cs frCase, op frOp, res *frResult, h *handler, s3 *storage.MemoryS3
 
 func frGen(r *vRand) frCase {
 	cs := frCase{Interval: []int32{1, 3, 3, 100, 2}[r.Intn(5)], Sync: r.Chance(70)}
-	var next [3]int64
+	var next [frNL]int64
 	type span struct{ base, last int64 }
-	var spans [3][]span
+	var spans [frNL][]span
 	sizes := []int{70}
 	rdPart := func() frPart {
-		lg := r.Intn(3)
+		lg := []int{0, 0, 1, 2, 3, 12, 14}[r.Intn(7)]
 		p := frPart{Lg: lg}
 		if len(spans[lg]) == 0 || r.Chance(10) {
 			p.Off = []int64{0, next[lg], next[lg] + 1, next[lg] - 1}[r.Intn(4)]
@@ -427,7 +479,7 @@ func frGen(r *vRand) frCase {
 	}
 	n := r.Range(5, 14)
 	for i := 0; i < n; i++ {
-		lg := []int{0, 0, 0, 1, 2}[r.Intn(5)]
+		lg := []int{0, 0, 0, 1, 2, 3, 12, 14}[r.Intn(8)]
 		op := frOp{K: "produce", Lg: lg, Len: r.Range(61, 90), Marker: byte(r.Intn(256)), Acks: -1}
 		if r.Chance(30) {
 			op.Lod = int32(r.Range(1, 4))
@@ -471,6 +523,38 @@ func frGen(r *vRand) frCase {
 			f.Parts = append(f.Parts, rdPart())
 		}
 		cs.Ops = append(cs.Ops, f)
+	}
+	return cs
+}
+
+// frGenFam: different volumes in every partition of the family (all start at offset 0,
+// so base offsets coincide), a handler restart, then a fetch at every offset of a few
+// partitions whose ids are prefixes of others.
+func frGenFam(r *vRand) frCase {
+	cs := frCase{Interval: []int32{1, 3, 100}[r.Intn(3)], Sync: true}
+	var next [frNL]int64
+	for lg := 0; lg < frNL; lg++ {
+		for k := 1 + (lg*7+r.Intn(3))%4; k > 0; k-- {
+			op := frOp{K: "produce", Lg: lg, Len: r.Range(61, 80), Marker: byte(r.Intn(256)), Acks: -1, Lod: int32(r.Intn(3))}
+			op.Count = op.Lod + 1
+			if r.Chance(40) && k > 1 {
+				op.Acks = 0
+			}
+			cs.Ops = append(cs.Ops, op)
+			next[lg] += int64(op.Lod) + 1
+		}
+		cs.Ops = append(cs.Ops, frOp{K: "produce", Lg: lg, Len: 61, Count: 1, Marker: byte(lg), Acks: -1})
+		next[lg]++
+	}
+	cs.Ops = append(cs.Ops, frOp{K: "restart"})
+	for _, lg := range []int{0, 12, []int{1, 3, 13, 14, 15}[r.Intn(5)]} {
+		for o := int64(0); o <= next[lg]; o++ {
+			mx := int32(1 << 20)
+			if r.Chance(25) {
+				mx = int32(r.Range(60, 90))
+			}
+			cs.Ops = append(cs.Ops, frOp{K: "fetch", ByID: r.Bool(), Parts: []frPart{{Lg: lg, Off: o, Max: mx}}})
+		}
 	}
 	return cs
 }
@@ -537,7 +621,7 @@ func frTest(t *testing.T, prop string) {
 			}
 			rep.Fail(f.oracle, key, what, shr)
 		}
-		coq = append(coq, fmt.Sprintf("mkFCase %s %s %s %s", cqZ(int64(cs.Interval)), cqBool(cs.Sync), cqBool(frExt()), cqList(res.steps)))
+		coq = append(coq, fmt.Sprintf("mkFCase %s %s %s %d %s", cqZ(int64(cs.Interval)), cqBool(cs.Sync), cqBool(frExt()), frNL, cqList(res.steps)))
 		jsons = append(jsons, string(canon))
 	}
 	if rc := vReplayCase(); rc != nil {
@@ -560,6 +644,9 @@ func frTest(t *testing.T, prop string) {
 		n := vN(60, 600)
 		for i := 0; i < n; i++ {
 			runOne(frGen(r.Fork()))
+		}
+		for i, nf := 0, vN(8, 80); i < nf; i++ {
+			runOne(frGenFam(r.Fork()))
 		}
 	}
 	rep.Cases(prop+"_fetch", "From KS Require Import lib.Base model.ReadPath corr.ReadPathCorr corr.FetchCorr.", "fcase", "check_fcase", coq, jsons)
